@@ -40,15 +40,16 @@ RULE = ("a case is one schedule: storage {FileStorage, RamStorage} x compound {o
         "earlier committed ids -> finish {commit default | merge=False | optimize | CLEAR, with-block commit, cancel, "
         "exception inside the with-block}; sometimes a second ix.writer() while the first is held. The scheduler policy "
         "(uniform random with stickiness / PCT priorities with d change points / round robin with quantum) and the "
-        "virtual tick are drawn per schedule; thorough tier adds sys.monitoring LINE-level scheduling points inside "
-        "whoosh/writing.py, index.py, filedb/filestore.py, util/filelock.py. Process cases: 2..6 worker processes "
+        "virtual tick are drawn per schedule; every 4th (thorough: every 3rd) schedule adds sys.monitoring LINE-level "
+        "scheduling points inside whoosh/writing.py, index.py, filedb/filestore.py, util/filelock.py (each LINE event "
+        "yields with probability 0.05 / 0.2 / 0.6). Process cases: 2..6 worker processes "
         "free-running with seeded random delays at storage events. A case is non-trivial when at least two commits "
         "succeeded and at least one acquisition attempt overlapped another writer's holding interval; distinct = "
         "distinct (storage, compound, threads, front-ends, multiset of attempt outcomes, policy family); distinct "
         "INTERLEAVINGS (hash of the owner sequence of the schedule) are counted separately (interleavings.distinct).")
 ASSUMPTIONS = [
     "schedule space is sampled, not enumerated: scheduling points are storage events (tap) everywhere and "
-    "additionally LINE events inside writing/index/filestore/filelock only in the thorough tier",
+    "additionally LINE events inside writing/index/filestore/filelock in a quarter (thorough: a third) of the schedules",
     "threaded runs decide timeouts in VIRTUAL time (scheduler steps x tick; try_for's time.time/time.sleep are "
     "replaced from the harness), so 'LockError only after the timeout' and 'at most ceil(timeout/delay)+1 tries' are "
     "exact there; process runs use time.monotonic() (system-wide on Linux) and only check the lower bound with 5 ms "
@@ -630,7 +631,8 @@ def run_thread_case(ctx, idx, rng, lines=False):
         else:
             ix = RamStorage().create_index(make_schema())
         model0 = {}
-        for p in range(rng.randint(0, 3)):
+        # (no prelude in most LINE-level schedules: the very first writer() calls of a fresh storage race)
+        for p in range(0 if (lines and rng.random() < 0.6) else rng.randint(0, 3)):
             w = ix.writer(compound=compound)
             for i in range(rng.randint(1, 3)):
                 key = "base%d.%d" % (p, i)
@@ -966,7 +968,7 @@ def run(ctx):
         k = idx // ctx.nshards
         if k % ctx.pick(40, 30) == 3:
             run_proc_case(ctx, idx, rng)
-        elif not ctx.quick and k % 3 == 1:
+        elif k % ctx.pick(4, 3) == 1:
             run_thread_case(ctx, idx, rng, lines=True)
         else:
             run_thread_case(ctx, idx, rng)
